@@ -33,6 +33,7 @@ def flag (j : Json) (k : String) : Bool :=
 * `lex`     `{a}` → the split name and the class flags
 * `match`   `{v,expr}` → `{"r": "match"|"nomatch"|"M"|"I", "tokens":[..]}`
 * `legal`   `{expr}` → `{"r": "relational"|"plain"|"bad"}` (`Eups.isLegalRelativeVersion`)
+* `list`    `{version, tags:[..], stacks:[[{ver,tags:[..]}..]..]}` → `{"products": [[stack, version]..]}` | `{"err": ..}` (`Eups.findProducts`)
 * `latest`  `{names:[..]}` → `{"idx": n | null}` or `{"err": ..}`
 * `stacks` / `stacksboth` (`{"cache":..,"db":..}`)  `{stacks:[[..]..],expr,minver?,db?}` → `{"latest", "latest_min", "preferred": [stack, version] | null | {"err"},
              "matches": [[stack, version]..] | {"err"}}`; `db`: the database branch (each stack in string order) -/
@@ -71,6 +72,16 @@ def handle : Handler := fun j => do
     let e ← jstr j "expr"
     pure (Json.mkObj [("r", match isLegalRelativeVersion e with
       | .relational => "relational" | .plain => "plain" | .badSyntax => "bad")])
+  | "list" =>
+    let verArg ← jstr j "version"
+    let tags ← jstrs j "tags"
+    let stacks ← (← jarr j "stacks").mapM fun st => do
+      (← st.getArr?).toList.mapM fun d => do
+        pure ({ ver := ← jstr d "ver", tags := ← jstrs d "tags" } : Decl)
+    match listProducts verArg tags stacks with
+    | .error er => pure (Json.mkObj [("err", er.name)])
+    | .ok .badSyntax => pure (Json.mkObj [("err", "BadExpr")])
+    | .ok (.products l) => pure (Json.mkObj [("products", Json.arr (l.map fun (i, v) => Json.arr #[Json.num i, ofStr v]).toArray)])
   | "latest" =>
     let names ← jstrs j "names"
     match latest names with
